@@ -16,9 +16,10 @@ def level_preds(draw, levelmax):
         a = draw(st.integers(0, max(levelmax - 1, 0)))
         b = draw(st.integers(a + 2, levelmax + 2))
         return {"t": t, "a": a, "b": b}
+    as_int = draw(st.sampled_from([False, False, False, True]))      # the predicate returns a 0/1 mask instead of booleans
     if t == "lt":
-        return {"t": t, "k": draw(st.integers(2, levelmax + 1))}
-    return {"t": t, "k": draw(st.integers(1, levelmax))}
+        return {"t": t, "k": draw(st.integers(2, levelmax + 1)), "as_int": as_int}
+    return {"t": t, "k": draw(st.integers(1, levelmax)), "as_int": as_int}
 
 
 def level_accepts(p, l):
@@ -188,7 +189,10 @@ def build_select(osyris, res, m):
     sel = {}
     if res["level"]:
         p = res["level"]
-        sel["level"] = lambda l, p=p: level_accepts(p, l)
+        if p.get("as_int"):
+            sel["level"] = lambda l, p=p: level_accepts(p, l) * 1
+        else:
+            sel["level"] = lambda l, p=p: level_accepts(p, l)
     scale = m.boxlen * m.ul
     for a, (lo, hi) in res["pos"].items():
         lo_a = osyris.Array(values=lo * scale, unit="cm")
